@@ -30,6 +30,9 @@ def gen_inputs(rng, spec, n=None, capacity_ok=None):
     # on/off series are handed over as booleans or as 0/1 numbers (the repository's own tests do both)
     inp["dtype"] = {"status": str(rng.choice(["bool", "int", "float"], p=[0.6, 0.2, 0.2])),
                     "breaker": str(rng.choice(["bool", "int", "float"], p=[0.2, 0.4, 0.4] if swap else [0.6, 0.2, 0.2]))}
+    # sharing-mode series written by hand are often integer arrays ([0, 0, 1]); one array object may serve several components
+    inp["dtype"]["mode"] = str(rng.choice(["float", "int"], p=[0.7, 0.3]))
+    inp["alias"] = bool(rng.random() < 0.25)
     if capacity_ok is None:
         capacity_ok = rng.random() < 0.9
     total_src = sum(c["rated"] for c in spec["electric"] if c["kind"] in SOURCE_KINDS)
@@ -41,6 +44,8 @@ def gen_inputs(rng, spec, n=None, capacity_ok=None):
             p_on = 0.85 if capacity_ok else 0.4
             d["status"] = [bool(rng.random() < p_on) for _ in range(n)]
             d["share"] = [float(rng.integers(1, 20)) / 20.0 if rng.random() < 0.25 else 0.0 for _ in range(n)]
+            if rng.random() < 0.15:
+                d["share"] = [1.0 if x else 0.0 for x in d["share"]]         # fixed share of the whole rating
         elif k in ("other_load", "drive"):
             scale = min(c["rated"], 0.5 * total_src / n_cons)
             d["load"] = [float(np.round(rng.uniform(0.02, 0.95) * scale, 2)) if rng.random() < 0.9 else 0.0 for _ in range(n)]
@@ -58,20 +63,34 @@ def apply_inputs(plant, inp, copy=True):
     """Writes the inputs into the real components (fresh arrays unless copy=False)."""
     sys_ = plant.electric
     n = inp["n"]
-    arr = (lambda x, dt=float: np.array(x, dtype=dt)) if copy else (lambda x, dt=float: x)
     DT = {"bool": bool, "int": int, "float": float}
     st_dt, br_dt = DT[inp.get("dtype", {}).get("status", "bool")], DT[inp.get("dtype", {}).get("breaker", "bool")]
+    cache = {}
+
+    def arr(values, dt=float):
+        """a fresh array, or (alias mode) the one array object already made for the same series"""
+        if not inp.get("alias"):
+            return np.array(values, dtype=dt)
+        key = (np.dtype(dt).name, tuple(values))
+        if key not in cache:
+            cache[key] = np.array(values, dtype=dt)
+        return cache[key]
+
+    def mode_arr(values):
+        """sharing modes: an integer array when the case says so and every value is whole"""
+        as_int = inp.get("dtype", {}).get("mode", "float") == "int" and all(float(v).is_integer() for v in values)
+        return arr(values, int if as_int else float)
     for c in plant.spec["electric"]:
         obj, d, k = plant.by_name[c["name"]], inp["comp"][c["name"]], c["kind"]
         if k in SOURCE_KINDS:
-            obj.status = np.array(d["status"], dtype=st_dt)
-            obj.load_sharing_mode = np.array(d["share"], dtype=float)
+            obj.status = arr(d["status"], st_dt)
+            obj.load_sharing_mode = mode_arr(d["share"])
         elif k in ("other_load", "drive"):
-            obj.set_power_input_from_output(np.array(d["load"], dtype=float))
+            obj.set_power_input_from_output(arr(d["load"]))
         else:
-            obj.status = np.array(d["status"], dtype=st_dt)
-            obj.load_sharing_mode = np.array(d["mode"], dtype=float)
-            obj.power_input = np.array(d["given"], dtype=float)
+            obj.status = arr(d["status"], st_dt)
+            obj.load_sharing_mode = mode_arr(d["mode"])
+            obj.power_input = arr(d["given"])
     ties = plant.spec.get("bus_ties", [])
     if ties:
         sys_.set_bus_tie_status_all(np.array(inp["breaker"], dtype=br_dt).T.reshape(n, len(ties)))
